@@ -520,9 +520,12 @@ where
                     tracing::error!(error=%err, "error during delayed drop");
                 }
             });
-        } else if let Some(mut pool) = self.pool.lock() {
-            // Connection is only cancled when no delayed drop occurs.
-            pool.cancel_connection(self.token);
+        } else if !matches!(self.inner, InnerCheckoutConnecting::Waiting) {
+            // Connection is only cancled when no delayed drop occurs, and never by a checkout
+            // which was only waiting on another checkout's in-flight connection attempt.
+            if let Some(mut pool) = self.pool.lock() {
+                pool.cancel_connection(self.token);
+            }
         }
     }
 }
